@@ -8,6 +8,9 @@ SPEC = os.path.join(VERIF, "spec")
 HARNESS = os.path.join(VERIF, "harness")
 EVIDENCE = os.path.join(VERIF, "evidence")
 REPLAYS = os.path.join(VERIF, "replays")
+if REPO != "/repo":
+    # development aid (a check run against a scratch worktree): the evidence of /verif describes /repo only
+    EVIDENCE = os.path.join("/tmp", "verif-alt-evidence")
 TLA_CP = "/opt/veriftools/tla/tla2tools.jar:/opt/veriftools/tla/CommunityModules-deps.jar"
 NCPU = os.cpu_count() or 4
 
